@@ -108,6 +108,9 @@ var otherVals = []Val{
 	{K: "obj", VO: "s:", TS: "s:t"},
 	{K: "arr", S: ""}, {K: "arr", S: "5"}, {K: "arr", S: "1,2"},
 	{K: "fn"},
+	// objects of the fixed prelude (see Build): operands for which instanceof and in do
+	// not end in a TypeError
+	{K: "ref", S: "PF"}, {K: "ref", S: "pfi"}, {K: "ref", S: "pfp"}, {K: "ref", S: "PG"}, {K: "ref", S: "pgi"}, {K: "ref", S: "keyobj"}, {K: "ref", S: "bareproto"},
 }
 
 var goKinds = []string{"float64", "float32", "int", "int8", "int16", "int32", "int64", "uint", "uint8", "uint16", "uint32", "uint64", "string"}
@@ -130,13 +133,20 @@ func cases(tier string, seed uint64) int {
 	if tier == "thorough" {
 		return n*n + 2000000
 	}
-	return n*n/3 + 6000
+	return len(otherVals)*len(otherVals) + n*n/3 + 6000
 }
 
 func generate(r *gen.Rand, tier string, i int) Input {
 	n := len(universe)
 	full := n * n
 	if tier != "thorough" {
+		// quick: the whole (object-like x object-like) block always, because its
+		// cells are all different mechanisms, then a third of the full product
+		m := len(otherVals)
+		if i < m*m {
+			return Input{A: otherVals[i/m], B: otherVals[i%m]}
+		}
+		i -= m * m
 		full = n * n / 3
 	}
 	if i < full {
@@ -286,6 +296,8 @@ func class(v Val) string {
 		return "str-num"
 	case "obj":
 		return "obj:" + strings.SplitN(v.VO, ":", 2)[0] + "/" + strings.SplitN(v.TS, ":", 2)[0]
+	case "ref":
+		return "ref:" + v.S
 	}
 	return v.K
 }
@@ -388,6 +400,8 @@ func valNode(v Val, tag string) Node {
 		return Arr(el...)
 	case "fn":
 		return FnE("", nil)
+	case "ref":
+		return Id(v.S)
 	}
 	panic("bad val kind " + v.K)
 }
@@ -397,7 +411,21 @@ var unaryOps = []string{"-", "+", "~", "!", "typeof", "void"}
 // Build returns the program for a case and the operator of each logged line group.
 func Build(in Input) *Program {
 	a, b := Id("a"), Id("b")
-	body := []Node{V("a", valNode(in.A, "a")), V("b", valNode(in.B, "b"))}
+	// fixed prelude: constructors with instances, a constructor whose prototype is
+	// an instance of another, the prototype objects themselves, an object keyed by
+	// the strings that ToString yields for the primitive operands. The functions
+	// carry their own toString so that converting them never reaches the
+	// implementation-defined Function.prototype.toString.
+	named := func(name string) Node {
+		return ES(Asg(Dot(Id(name), "toString"), FnE("", nil, Ret(S(name)))))
+	}
+	body := []Node{
+		FnD("PF", nil), named("PF"), V("pfi", NewE(Id("PF"))), V("pfp", Dot(Id("PF"), "prototype")),
+		FnD("PG", nil), named("PG"), ES(Asg(Dot(Id("PG"), "prototype"), Id("pfi"))), V("pgi", NewE(Id("PG"))),
+		V("bareproto", CallE(Dot(Id("Object"), "create"), &Null{})),
+		V("keyobj", ObjL(P("1", N(1)), P("a", N(2)), P("", N(3)), P("NaN", N(4)), P("undefined", N(5)), P("null", N(6)), P("true", N(7)), P("12", N(8)), P("Infinity", N(9)), P("-1", N(10)), P("0", N(11)), P("1e+21", N(12)), P("str", N(13)), P("PF", N(14)))),
+		V("a", valNode(in.A, "a")), V("b", valNode(in.B, "b")),
+	}
 	want := func(op string) bool {
 		if len(in.Ops) == 0 {
 			return true
